@@ -450,6 +450,21 @@ fn first_byte_diff(a: &[u8], b: &[u8]) -> String {
 	format!("first difference at byte {n} (input has {} bytes, output {}): input ..{:02x?}.. output ..{:02x?}..", a.len(), b.len(), &a[n.saturating_sub(4)..(n + 8).min(a.len())], &b[n.saturating_sub(4)..(n + 8).min(b.len())])
 }
 
+/// `ClassFile::write` into a sink with short writes must deliver every byte it announces
+fn written_through_short_writes(v: &raw::ClassFile, expect: &[u8]) -> PropResult {
+	let mut d = crate::engine::ShortWrites::new();
+	v.write(&mut d).map_err(|e| format!("write into a sink with short writes failed: {e}"))?;
+	if d.out != expect {
+		return Err(format!("write() into a sink that takes 1..7 bytes per call delivered {} of the {} bytes it announces", d.out.len(), expect.len()));
+	}
+	// and the same bytes read from a source with short reads give the same value
+	match raw::ClassFile::read(&mut crate::engine::ShortReads::new(expect)) {
+		Ok(back) if back == *v => Ok(()),
+		Ok(_) => Err("read() from a source that hands out 1..5 bytes per call gives another value than read() from a slice".into()),
+		Err(e) => Err(format!("read() from a source that hands out 1..5 bytes per call fails: {e}")),
+	}
+}
+
 pub fn bytes_roundtrip(bytes: &[u8], obs: &mut Obs) -> PropResult {
 	let wide = pool_has_wide(bytes);
 	obs.label_if(wide, "pool_with_long/double");
@@ -476,6 +491,9 @@ pub fn bytes_roundtrip(bytes: &[u8], obs: &mut Obs) -> PropResult {
 	let tb = v.to_bytes();
 	if tb != out {
 		return Err("to_bytes() and write() disagree".into());
+	}
+	if out.len() < 20000 {
+		written_through_short_writes(&v, &out)?;
 	}
 	if let Ok((_, file_frames)) = walk_layout_frames(bytes) {
 		frames_agree(&v, &file_frames, obs)?;
@@ -791,6 +809,9 @@ fn raw_value(case: &RawCase, obs: &mut Obs) -> PropResult {
 	v.write(&mut out).map_err(|e| format!("write failed: {e}"))?;
 	if out != bytes {
 		return Err("write() and to_bytes() disagree".into());
+	}
+	if out.len() < 20000 {
+		written_through_short_writes(&v, &out)?;
 	}
 	// every count and attribute_length as the JVMS lays them out
 	match walk_layout_frames(&bytes) {
